@@ -12,7 +12,12 @@ Terms are nested tuples (hashable, comparable).  Values are never concrete data:
   ("elem", iter_term, loop_id)         an arbitrary element yielded by iterating iter_term
   ("fresh", tag, n)                    unknown value
   ("binop", op, l, r) ("fstr", parts) ("comp", kind, iter, elt, loop_id)
-  ("closure", qualname)                a nested function value
+  ("closure", qualname, captured)      a nested function / lambda value; captured = ((name, term), ...)
+                                       snapshot of its free variables when it was created
+  ("partial", f, args, kwargs)         functools.partial(f, *args, **kwargs)
+  ("nt", class qualname, fields)       instance of a typing.NamedTuple class of the repository
+  ("gen", qualname, bindings)          a generator object: the call of a generator function that has
+                                       not run yet; bindings = ((parameter, term), ...)
   ("excobj", classname)                a caught exception object
 """
 from __future__ import annotations
@@ -205,7 +210,10 @@ _ARITY = {
     "binop": 4,
     "fstr": 2,
     "comp": 5,
-    "closure": 2,
+    "closure": 3,
+    "partial": 4,
+    "gen": 3,
+    "nt": 3,
     "excobj": 2,
     "free": 2,
     "unop": 3,
@@ -301,6 +309,12 @@ def show(t, depth=0):
         return "<%s-comp %s for elem in %s>" % (t[1], show(t[3], d), show(t[2], d))
     if k in ("closure", "excobj", "free"):
         return "<%s %s>" % (k, t[1])
+    if k == "partial":
+        return "partial(%s)" % ", ".join([show(t[1], d)] + [show(x, d) for x in t[2]] + ["%s=%s" % (n, show(v, d)) for n, v in t[3]])
+    if k == "nt":
+        return "%s(%s)" % (t[1].split(".")[-1], ", ".join(show(x, d) for x in t[2]))
+    if k == "gen":
+        return "<generator %s(%s)>" % (t[1], ", ".join("%s=%s" % (n, show(v, d)) for n, v in t[2]))
     return "(" + ", ".join(show(x, d) for x in t) + ")"
 
 
